@@ -1,3 +1,5 @@
+import Mathlib.Tactic.NormNum
+import Mathlib.Tactic.Linarith
 import ElexModel.Core.Boot
 import ElexModel.Core.BootAgg
 import ElexModel.Lemmas.Quantile
@@ -266,3 +268,27 @@ theorem bridge_boot_shape :
   ⟨rfl, rfl, rfl⟩
 
 end ElexModel.BootAgg
+
+/-! ### C06 stated directly about the regenerated source terms -/
+
+namespace ElexModel.Boot
+open ElexModel
+
+/-- **C06 on the source**: the two levels `_get_quantiles` returns are valid and ordered for every `B ≥ 2`, `0 < α < 1` -/
+theorem source_quantile_levels_valid (B : ℕ) (hB : 2 ≤ B) (alpha : ℚ) (h0 : 0 < alpha) (h1 : alpha < 1) :
+    0 ≤ (Gen.C06.get_quantiles alpha (B : ℚ)).1 ∧
+    (Gen.C06.get_quantiles alpha (B : ℚ)).1 ≤ (Gen.C06.get_quantiles alpha (B : ℚ)).2 ∧
+    (Gen.C06.get_quantiles alpha (B : ℚ)).2 ≤ 1 := by
+  rw [bridge_get_quantiles]
+  exact quantile_levels_valid B hB alpha h0 h1
+
+/-- **C06 on the source**: after the two `± 0.001` lines the prediction lies strictly inside the bounds -/
+theorem source_straddle_strict (pred lo hi : ℚ) :
+    Gen.C06.straddle_lower lo pred < pred ∧ pred < Gen.C06.straddle_upper hi pred := by
+  unfold Gen.C06.straddle_lower Gen.C06.straddle_upper
+  rw [rmin_eq, rmax_eq]
+  constructor
+  · exact lt_of_le_of_lt (min_le_right _ _) (by norm_num)
+  · exact lt_of_lt_of_le (by norm_num) (le_max_right _ _)
+
+end ElexModel.Boot
